@@ -562,6 +562,21 @@ class Ref:
             raise Skip(f"unknown data object {name}")
         return self.dobjs[name]
 
+    def dtc_codes(self, o: J, depth: int = 0) -> List[int]:
+        """trouble codes of a DTC-DOP: its own DTCs plus those of the linked DTC-DOPs that are
+        not excluded by short name (own DTCs of the same name override)"""
+        own = [d["code"] for d in o["dtcs"]]
+        names = {d["name"] for d in o["dtcs"]}
+        if depth < 4:
+            for ln in o.get("linked") or []:
+                other = self.dobj(ln["dop"])
+                excluded = set(ln.get("not_inherited") or [])
+                for d in other["dtcs"]:
+                    if d["name"] not in excluded and d["name"] not in names:
+                        own.append(d["code"])
+                        names.add(d["name"])
+        return own
+
     def enc_dobj(self, cx: EncCtx, o: J, value: Any, pos: int, bit: int, last: bool) -> int:
         t = o["t"]
         if t == "DOP":
@@ -574,7 +589,7 @@ class Ref:
         if t == "DTCDOP":
             if isinstance(value, bool) or not isinstance(value, int):
                 raise Skip("DTC given by name/object")
-            if value not in [d["code"] for d in o["dtcs"]]:
+            if value not in self.dtc_codes(o):
                 raise Unrepresentable("unknown-dtc", str(value))
             cm = Compu(o["compu"], o["dct"]["base"], o["ptype"])
             return self.enc_dct(cx, o["dct"], cm.p2i(value), pos, bit, last)
@@ -763,7 +778,7 @@ class Ref:
             cm = Compu(o["compu"], o["dct"]["base"], o["ptype"])
             phys = cm.i2p(internal)
             if t == "DTCDOP":
-                if phys not in [d["code"] for d in o["dtcs"]]:
+                if phys not in self.dtc_codes(o):
                     raise Skip("unknown DTC in PDU")
             return phys, end
         if t == "STRUCT":
